@@ -12,6 +12,9 @@ counts, face positions and coefficient fields):
  R4  boundary faces: the flux functional equals the interior face functional transplanted to the
      boundary face (ghost cell of the size of the adjacent cell); for upwind with the donor on the
      ghost side replaced by the face average (ghost+inner)/2
+ R5  closed systems: the coefficients multiplying a boundary-face diffusivity sum to zero (ghost = inner => no flux);
+     advective boundary-face contributions are linear in the wall-normal velocity (R1L), hence vanish with it;
+     the periodic-seam half of the statement is C08.A4
  R6  source terms are cell-local (diagonal matrix / own-cell right-hand side)
  R7  domainIntegral() sums cellvolume*value over the interior cells once
 """
@@ -32,6 +35,7 @@ RULES = {
     'R2': 'divergenceTerm: volume-weighted face contributions cancel',
     'R3': 'TVD RHS: volume-weighted face contributions cancel',
     'R4': 'boundary-face flux functional = transplanted interior functional (upwind: ghost -> face average)',
+    'R5': 'no-flux closure: boundary-face diffusion coefficients sum to zero (zero flux for ghost = inner); advective boundary flux is linear in the wall velocity (R1L)',
     'R6': 'source terms are cell-local',
     'R7': 'domainIntegral = sum(cellvolume*value)',
 }
@@ -175,6 +179,12 @@ def job(args):
                             # rel: 'L' or 'H' or 'rhs' ; generic functional expressed at face t
                             tv = F.transplant(w, val, a, i)
                             exp[rel] = tv
+                        if tname == 'diffusion':
+                            # R5: with the no-flux ghost relation (ghost value = inner value, C03/C07.M3) the boundary face carries no flux
+                            tot5 = ZERO
+                            for k5, (c5, v5) in got.items():
+                                tot5 = tot5 + v5
+                            ob('R5', construct, is_zero(tot5), f"{fdesc} ({side} boundary): coefficients of the boundary-face diffusivity sum to {fmt_rat(tot5, 5)} (must be 0 so that ghost = inner gives zero flux)", loc)
                         if kind == 'vector':
                             gv = got.get('rhs', (None, ZERO))[1]
                             ok = is_zero(gv - exp.get('rhs', ZERO))
